@@ -14,9 +14,20 @@ HERE = os.path.dirname(os.path.abspath(__file__))
 
 
 def main(argv):
-    if os.environ.get("PYTHONHASHSEED") is None:
+    want_hs = None
+    if argv and argv[0] == "replay" and len(argv) > 1:
+        # a replay file names the str-hash seed of the process it was recorded in
+        try:
+            import json
+
+            with open(argv[1]) as fh:
+                want_hs = str(json.load(fh).get("hashseed", "0"))
+        except (OSError, ValueError):
+            want_hs = None
+    have = os.environ.get("PYTHONHASHSEED")
+    if have is None or (want_hs is not None and have != want_hs):
         env = dict(os.environ)
-        env["PYTHONHASHSEED"] = "0"
+        env["PYTHONHASHSEED"] = want_hs or "0"
         os.execve(sys.executable, [sys.executable, os.path.abspath(__file__), *argv], env)
     repo = os.environ.get("VERIF_REPO", "/repo")
     sys.path.insert(0, HERE)
